@@ -146,6 +146,40 @@ CLAIMED = {
             'times, fields, auto-detection) and re-written by writearlpackedbit, whose output is decoded by an '
             'independent reader.',
             'serial reference with float32 emulation; projected grids (pyproj) out of scope', 'DESIGN.md section 4 C20'),
+    'C08': ('A', 'model_checking',
+            'bounded-exhaustive enumeration of generated CAMx files through read/write/read/write on the real code',
+            'Every descriptor of the binary universe (8 formats; species sets, all grid shapes up to 3x3x3, 1-5 steps, '
+            '7 start instants crossing day/year/leap-day/century, 8 payload kinds incl. -0.0, denormal and float32 max, '
+            '4 NAME variants, nz=0 headers, 8-byte wind headers; 510 files quick, ~25 k thorough) is reference-encoded, '
+            'read, written, re-read and written again: second read == first read bit for bit (data, TFLAG/ETFLAG, '
+            'species order, grid header), second write byte-identical to the first, time flags == encoded instants.',
+            'starts from reference-encoded files; land-use and cloud/rain files are not generated', 'DESIGN.md section 4 C08'),
+    'C09': ('A', 'model_checking',
+            'bounded-exhaustive enumeration of generated files through an independent struct-level codec in both directions',
+            'Same universe as C08. Direction 1: every reference-encoded file (also little-endian for uamiv) is read '
+            'by the library and compared with the generating recipe (dimensions, species order, float data bit for '
+            'bit, TFLAG/ETFLAG instants, grid and file header). Direction 2: library writer output (from the reader '
+            'object and from hand-built in-memory files without ETFLAG / edge definitions and with non-contiguous '
+            'arrays) is walked by an independent record parser (marker agreement, exact tiling, header counts) and '
+            'decoded back to the recipe.',
+            'layouts of DESIGN Appendix A, validated byte-exactly against every bundled sample at worker start-up',
+            'DESIGN.md section 4 C09'),
+    'C13': ('A', 'model_checking',
+            'bounded-exhaustive enumeration of generated files opened by both reader families on the real code',
+            'Every descriptor of the universe for the 7 formats with both reader families is opened with the '
+            'memory-mapped and the record reader on the same path; files either reader rejects are outside the '
+            'quantifier; common dimensions and variables must agree bit for bit (up to length-1 axes); a 5 s '
+            'watchdog turns non-termination into a violation.',
+            'only what both readers define is compared (record readers define no TFLAG)', 'DESIGN.md section 4 C13'),
+    'C14': ('D', 'fault_enumeration',
+            'exhaustive crash-point enumeration: every byte prefix of every generated file opened by the real readers',
+            'For 37 (quick) / ~250 (thorough) generated files of 8 formats EVERY proper byte prefix (36 k / 244 k cuts; '
+            'uamiv and lateral_boundary also in update mode r+) is opened with the memory-mapped reader and fully '
+            'read: the outcome must be an exception or only complete steps bit-identical to the full file, same '
+            'non-time dimensions; for the header-less met formats a cut on a record boundary inside the first step is a '
+            'valid shorter file and must show exactly those layers. Each read runs under a 0.5 s alarm.',
+            'step completeness = all data records of the step present; bpch not generated (readers unusable under numpy 2)',
+            'DESIGN.md section 4 C14'),
 }
 
 PENDING_REASON = ('check not built yet in this session; planned per DESIGN.md section 4 '
